@@ -155,12 +155,23 @@ Section Rel.
       ipc s = IIdle -> prog s = OSend u sid tgt 0 :: rest -> available (delayM s) Interp = true ->
       step_rel s (mk (now s) rest IIdle (tpc s) (pending s) (remove u (targets s)) (current_cb s)
                      (delayM s) (queueM s) (EDeliver u (now s) tgt false :: ESend u sid tgt (now s) 0 :: trace s))
-  | SI_send u sid tgt d rest pd :
+  | SI_send u sid tgt d rest pd dl :
       ipc s = IIdle -> prog s = OSend u sid tgt d :: rest -> d <> 0 ->
-      available (delayM s) Interp = true -> available (queueM s) Interp = true ->
+      available (queueM s) Interp = true ->
+      (if dv_enqueue_arms_first v then Some (delayM s) else acquire (delayM s) Interp) = Some dl ->
       cancel_entry v (current_cb s) (pending s) u = CDone pd ->
-      step_rel s (mk (now s) rest IIdle (tpc s) (put u (new_pend (now s) d) pd) (put u (sid, tgt) (targets s))
-                     (current_cb s) (delayM s) (queueM s) (ESend u sid tgt (now s) d :: trace s))
+      step_rel s (mk (now s) rest (ISendArmed u sid tgt) (tpc s) (put u (new_pend (now s) d) pd)
+                     (if dv_enqueue_arms_first v then targets s else put u (sid, tgt) (targets s))
+                     (current_cb s) dl (queueM s) (ESend u sid tgt (now s) d :: trace s))
+  | SI_armed_off u sid tgt :
+      ipc s = ISendArmed u sid tgt -> dv_enqueue_arms_first v = false ->
+      step_rel s (mk (now s) (prog s) IIdle (tpc s) (pending s) (targets s) (current_cb s)
+                     (release (delayM s)) (queueM s) (trace s))
+  | SI_armed_on u sid tgt :
+      ipc s = ISendArmed u sid tgt -> dv_enqueue_arms_first v = true ->
+      available (delayM s) Interp = true ->
+      step_rel s (mk (now s) (prog s) IIdle (tpc s) (pending s) (put u (sid, tgt) (targets s)) (current_cb s)
+                     (delayM s) (queueM s) (trace s))
   | SI_send_fault u sid tgt d rest f :
       ipc s = IIdle -> prog s = OSend u sid tgt d :: rest -> d <> 0 ->
       cancel_entry v (current_cb s) (pending s) u = CFault f ->
@@ -252,15 +263,17 @@ Section Rel.
     destruct t.
     - (* interpreter *)
       unfold istep in H.
-      destruct (ipc s) as [|sid u todo|sid u todo|] eqn:Hipc.
+      destruct (ipc s) as [|u0 sid0 tgt0|sid u todo|sid u todo|] eqn:Hipc.
       + destruct (prog s) as [|[u sid tgt d|sid|] rest] eqn:Hprog; [discriminate| | |].
-        * destruct (negb (available (delayM s) Interp)) eqn:Hav; [discriminate|].
-          apply negb_false_true in Hav.
-          destruct (d =? 0) eqn:Hd.
-          -- apply N.eqb_eq in Hd; subst d. injection H as <-. now apply SI_send0.
+        * destruct (d =? 0) eqn:Hd.
+          -- destruct (negb (available (delayM s) Interp)) eqn:Hav; [discriminate|].
+             apply negb_false_true in Hav.
+             apply N.eqb_eq in Hd; subst d. injection H as <-. now apply SI_send0.
           -- apply N.eqb_neq in Hd.
              destruct (negb (available (queueM s) Interp)) eqn:Hav2; [discriminate|].
              apply negb_false_true in Hav2.
+             destruct (if dv_enqueue_arms_first v then Some (delayM s) else acquire (delayM s) Interp) as [dl|] eqn:Hdl;
+               [|discriminate].
              destruct (cancel_entry v (current_cb s) (pending s) u) as [pd| |f] eqn:Hce; [|discriminate|].
              ++ injection H as <-. now apply SI_send.
              ++ injection H as <-. eapply SI_send_fault; eauto.
@@ -271,6 +284,10 @@ Section Rel.
           -- now apply SI_cancel_some.
         * destruct (acquire (queueM s) Interp) as [ql|] eqn:Hacq; [|discriminate].
           injection H as <-. now apply SI_all.
+      + destruct (dv_enqueue_arms_first v) eqn:Haf.
+        * destruct (negb (available (delayM s) Interp)) eqn:Hav; [discriminate|].
+          apply negb_false_true in Hav. injection H as <-. now apply SI_armed_on with (u := u0) (sid := sid0) (tgt := tgt0).
+        * injection H as <-. now apply SI_armed_off with (u := u0) (sid := sid0) (tgt := tgt0).
       + destruct (acquire (queueM s) Interp) as [ql|] eqn:Hacq; [|discriminate].
         injection H as <-. now apply SI_qbefore.
       + destruct (cancel_entry v (current_cb s) (pending s) u) as [pd| |f] eqn:Hce; [|discriminate|].
@@ -455,7 +472,8 @@ Record Inv1 (s : dstate) : Prop := {
   i_dlv_unarmed : forall u p, In u (delivered (trace s)) -> lookup (pending s) u = Some p -> p_armed p = false;
   i_dlv_nodup : NoDup (delivered (trace s));
   i_dlv : forall u t tgt b, In (EDeliver u t tgt b) (trace s) ->
-             t <= now s /\ exists sid tgt' enq d, In (ESend u sid tgt' enq d) (trace s) /\ enq + d <= t
+             t <= now s /\ exists sid tgt' enq d, In (ESend u sid tgt' enq d) (trace s) /\ enq + d <= t;
+  i_armed : forall u sid tgt, ipc s = ISendArmed u sid tgt -> exists enq d, In (ESend u sid tgt enq d) (trace s)
 }.
 
 Lemma tpc_pre_on t u : tpc_pre t = Some u -> tpc_on t = Some u.
@@ -538,6 +556,7 @@ Section Preserve1.
         * discriminate.
         * destruct (i_dlv _ HI _ _ _ _ Hin) as (Ht & a & b0 & c & e & Hin' & Hle). split; [exact Ht|].
           exists a, b0, c, e. split; [right; right; exact Hin' | exact Hle].
+      + discriminate.
     - (* send with a delay *)
       destruct (fresh_uuid _ _ _ _ _ _ HI H0) as [Hf Hnd].
       destruct (cancel_entry_done _ _ _ _ _ H4) as (Hlk & Hk & _).
@@ -547,9 +566,11 @@ Section Preserve1.
       + intros u0 p Hl. rewrite lookup_put in Hl. destruct (u =? u0) eqn:E.
         * apply N.eqb_eq in E; subst u0. injection Hl as <-. cbn. exists sid, tgt. now left.
         * rewrite Hlk, E in Hl. destruct (i_pend _ HI _ _ Hl) as (a & b & Hin). wk.
-      + intros u0 sid0 tgt0 Hl. rewrite lookup_put in Hl. destruct (u =? u0) eqn:E.
-        * apply N.eqb_eq in E; subst u0. injection Hl as <- <-. exists (now s), d. now left.
+      + intros u0 sid0 tgt0 Hl. destruct (dv_enqueue_arms_first v).
         * destruct (i_tgt _ HI _ _ _ Hl) as (a & b & Hin). wk.
+        * rewrite lookup_put in Hl. destruct (u =? u0) eqn:E.
+          -- apply N.eqb_eq in E; subst u0. injection Hl as <- <-. exists (now s), d. now left.
+          -- destruct (i_tgt _ HI _ _ _ Hl) as (a & b & Hin). wk.
       + intros u0 Hc. destruct (i_cb _ HI _ Hc) as (H5 & H6 & H7). split; [wk|]. split; [|wk].
         intros p Hl. rewrite lookup_put in Hl. destruct (u =? u0) eqn:E.
         * apply N.eqb_eq in E; subst u0. exfalso. eapply fresh_not_cb; eauto.
@@ -562,6 +583,14 @@ Section Preserve1.
       + intros u0 t tgt0 b [Heq|Hin]; [discriminate|].
         destruct (i_dlv _ HI _ _ _ _ Hin) as (Ht & a & b0 & c & e & Hin' & Hle). split; [exact Ht|].
         exists a, b0, c, e. split; [right; exact Hin' | exact Hle].
+      + intros u0 sid0 tgt0 [= <- <- <-]. exists (now s), d. now left.
+    - (* enqueue returns *)
+      destruct HI; constructor; cbn; try assumption. discriminate.
+    - (* enqueue records the target after arming *)
+      constructor; cbn; try apply HI; [|discriminate].
+      intros u0 sid0 tgt0 Hl. rewrite lookup_put in Hl. destruct (u =? u0) eqn:E.
+      + apply N.eqb_eq in E; subst u0. injection Hl as <- <-. apply (i_armed _ HI _ _ _ H).
+      + apply (i_tgt _ HI _ _ _ Hl).
     - (* fault *) destruct HI; constructor; cbn; assumption.
     - (* cancel, nothing to do *)
       assert (Hp : send_uuids (prog s) = send_uuids rest) by (now rewrite H0).
@@ -577,12 +606,13 @@ Section Preserve1.
       + intros u0 t tgt0 b [Heq|Hin]; [discriminate|].
         destruct (i_dlv _ HI _ _ _ _ Hin) as (Ht & a & b0 & c & e & Hin' & Hle). split; [exact Ht|].
         exists a, b0, c, e. split; [right; exact Hin' | exact Hle].
+      + discriminate.
     - (* cancel starts *)
       assert (Hp : send_uuids (prog s) = send_uuids rest) by (now rewrite H0).
-      destruct HI; constructor; cbn; try assumption. now rewrite <- Hp.
+      destruct HI; constructor; cbn; try assumption; try discriminate. now rewrite <- Hp.
     - (* cancelAll takes the lock *)
       assert (Hp : send_uuids (prog s) = send_uuids rest) by (now rewrite H0).
-      destruct HI; constructor; cbn; try assumption. now rewrite <- Hp.
+      destruct HI; constructor; cbn; try assumption; try discriminate. now rewrite <- Hp.
     - (* cancelAll done *)
       destruct (cancel_all_done _ _ _ _ _ H0) as (Hsub & Hk & _).
       constructor; cbn.
@@ -595,8 +625,9 @@ Section Preserve1.
       + intros u0 p Hd Hl. apply Hsub in Hl. eapply i_dlv_unarmed; eauto.
       + apply (i_dlv_nodup _ HI).
       + apply (i_dlv _ HI).
+      + discriminate.
     - destruct HI; constructor; cbn; assumption.
-    - destruct HI; constructor; cbn; assumption.
+    - destruct HI; constructor; cbn; try assumption. discriminate.
     - (* last cancel step *)
       pose proof (cancel_entry_submap _ _ _ _ _ H0) as Hsub.
       destruct (cancel_entry_done _ _ _ _ _ H0) as (_ & Hk & _).
@@ -613,6 +644,7 @@ Section Preserve1.
       + intros u0 t tgt0 b [Heq|Hin]; [discriminate|].
         destruct (i_dlv _ HI _ _ _ _ Hin) as (Ht & a & b0 & c & e & Hin' & Hle). split; [exact Ht|].
         exists a, b0, c, e. split; [right; exact Hin' | exact Hle].
+      + discriminate.
     - (* cancel step, more to do *)
       pose proof (cancel_entry_submap _ _ _ _ _ H0) as Hsub.
       destruct (cancel_entry_done _ _ _ _ _ H0) as (_ & Hk & _).
@@ -627,6 +659,7 @@ Section Preserve1.
       + intros u0 p Hd Hl. apply Hsub in Hl. eapply i_dlv_unarmed; eauto.
       + apply (i_dlv_nodup _ HI).
       + apply (i_dlv _ HI).
+      + discriminate.
     - destruct HI; constructor; cbn; assumption.
     - (* expire *)
       destruct (Hpick _ _ _ H0) as (d & Hin & Hle & _).
@@ -653,6 +686,7 @@ Section Preserve1.
       + intros u0 t tgt0 b [Heq|Hi]; [discriminate|].
         destruct (i_dlv _ HI _ _ _ _ Hi) as (Ht & a & b0 & c & e & Hin' & Hle'). split; [exact Ht|].
         exists a, b0, c, e. split; [right; exact Hin' | exact Hle'].
+      + intros u0 sid0 tgt0 Hi. destruct (i_armed _ HI _ _ _ Hi) as (a & b & Hin'). wk.
     - (* callback finds nothing and returns *)
       constructor; cbn; try apply HI. discriminate. discriminate.
     - destruct HI; constructor; cbn; assumption.
@@ -676,6 +710,7 @@ Section Preserve1.
       + intros u0 q Hd Hl. destruct (Hsub _ _ Hl) as (q0 & Hq0 & _ & _ & ->). eapply i_dlv_unarmed; eauto.
       + apply (i_dlv_nodup _ HI).
       + apply (i_dlv _ HI).
+      + apply (i_armed _ HI).
     - (* eventReady takes the lock *)
       constructor; cbn; try apply HI.
       + intros u0 [= <-]. apply (i_cb _ HI). now rewrite H.
@@ -708,6 +743,8 @@ Section Preserve1.
           -- inversion Heq; subst. split; [lia|]. exists sid, tgt, enq, d. split; [now right | exact Hdue].
           -- destruct (i_dlv _ HI _ _ _ _ Hi) as (Ht & a & b0 & c & e & Hin' & Hle'). split; [exact Ht|].
              exists a, b0, c, e. split; [right; exact Hin' | exact Hle'].
+      + intros u0 sid0 tgt0 Hi. destruct (i_armed _ HI _ _ _ Hi) as (a & b & Hin').
+        destruct Htr as [->|[tgt1 ->]]; wk.
     - (* section 3 *)
       assert (Hsub : submap (if dv_cb_takes_entry v then pending s else remove u (pending s)) (pending s)).
       { intros k q. destruct (dv_cb_takes_entry v); [auto|]. rewrite lookup_remove. now destruct (u =? k). }
@@ -852,6 +889,8 @@ Section PreserveOrd.
       + injection Hl as <-. right. unfold p_due; cbn. lia.
       + rewrite Hlk, E in Hl. left. now exists p.
     - apply InvOrd_frame with (s := s); cbn; auto; try lia. intros k q Hl Ha. now exists q.
+    - apply InvOrd_frame with (s := s); cbn; auto; try lia. intros k q Hl Ha. now exists q.
+    - apply InvOrd_frame with (s := s); cbn; auto; try lia. intros k q Hl Ha. now exists q.
     - apply InvOrd_obs with (s := s) (o := ECancelDone sid (now s)); cbn; try easy.
       intros k p Hl Ha. left. now exists p.
     - apply InvOrd_frame with (s := s); cbn; auto; try lia. intros k q Hl Ha. now exists q.
@@ -938,9 +977,14 @@ Definition cancel_todo (i : ipc_t) : option (N * list N) :=
   | _ => None
   end.
 
-Record InvCan (s : dstate) : Prop := {
+(* the (sendid, target) entry of u is recorded -- or, in the deviating variant, about to be *)
+Definition has_target (v : dvariant) (s : dstate) (u sid : N) : Prop :=
+  (exists x, lookup (targets s) u = Some x) \/
+  (dv_enqueue_arms_first v = true /\ exists tgt, ipc s = ISendArmed u sid tgt).
+
+Record InvCan (v : dvariant) (s : dstate) : Prop := {
   c_K : forall u sid tgt enq d, In (ESend u sid tgt enq d) (trace s) ->
-          (exists x, lookup (targets s) u = Some x) \/ enq + d <= now s \/ dead s u;
+          has_target v s u sid \/ enq + d <= now s \/ dead s u;
   c_M : forall sid l, cancel_todo (ipc s) = Some (sid, l) ->
           forall u tgt enq d, In (ESend u sid tgt enq d) (trace s) ->
             In u l \/ enq + d <= now s \/ dead s u;
@@ -995,6 +1039,8 @@ Section PreserveCan.
       repeat split; auto. rewrite lookup_put. destruct (u0 =? u) eqn:E.
       + apply N.eqb_eq in E; subst. contradiction.
       + rewrite Hlk, E. exact Hp.
+    - repeat split; auto.
+    - repeat split; auto.
     - repeat split; auto.
     - repeat split; auto.
     - repeat split; auto.
@@ -1078,52 +1124,56 @@ Section PreserveCan2.
     right. unfold dead. rewrite Ht, Hd. auto.
   Qed.
 
-  Lemma K_old s s' : step_rel v pick s s' -> Inv1 s -> InvCan s ->
+  Lemma K_old s s' : step_rel v pick s s' -> Inv1 s -> InvCan v s ->
     forall u sid tgt enq d, In (ESend u sid tgt enq d) (trace s) ->
-      (exists x, lookup (targets s') u = Some x) \/ enq + d <= now s' \/ dead s' u.
+      has_target v s' u sid \/ enq + d <= now s' \/ dead s' u.
   Proof.
     intros Hs HI HC u sid tgt enq d Hin.
     pose proof (now_grows _ _ _ _ Hs) as Hnow.
-    destruct (c_K _ HC _ _ _ _ _ Hin) as [[x Hx]|[Hle|Hdead]].
-    2: { right; left; lia. }
-    2: { right; right. eapply dead_step; eauto. eapply sent_in; eauto. }
-    destruct Hs; cbn in *; try (left; exists x; exact Hx).
+    destruct (c_K _ _ HC _ _ _ _ _ Hin) as [[[x Hx]|[Haf [tg Hip]]]|[Hle|Hdead]].
+    3: { right; left; lia. }
+    3: { right; right. eapply dead_step; eauto. eapply sent_in; eauto. }
+    2: { (* the send of u is between arming and recording *)
+         left. destruct Hs; cbn in *; try congruence; try (right; split; [exact Haf | now exists tg]).
+         rewrite H in Hip. injection Hip as <- <- <-. left. cbn. rewrite lookup_put, N.eqb_refl. eauto. }
+    unfold has_target. destruct Hs; cbn in *; try (left; left; exists x; exact Hx).
     - (* send 0 removes the fresh uuid *)
       destruct (fresh_uuid _ _ _ _ _ _ HI H0) as [Hf _].
-      left. exists x. rewrite lookup_remove. destruct (u0 =? u) eqn:E; [|exact Hx].
+      left. left. exists x. rewrite lookup_remove. destruct (u0 =? u) eqn:E; [|exact Hx].
       apply N.eqb_eq in E; subst. exfalso. apply Hf. eapply sent_in; eauto.
-    - left. rewrite lookup_put. destruct (u0 =? u); eauto.
+    - left. left. destruct (dv_enqueue_arms_first v); [eauto|]. rewrite lookup_put. destruct (u0 =? u); eauto.
+    - left. left. rewrite lookup_put. destruct (u0 =? u); eauto.
     - (* last cancel step *)
       destruct (cancel_entry_done _ _ _ _ _ H0) as (Hlk & _ & _).
-      rewrite lookup_remove. destruct (u0 =? u) eqn:E; [|left; exists x; exact Hx].
+      rewrite lookup_remove. destruct (u0 =? u) eqn:E; [|left; left; exists x; exact Hx].
       apply N.eqb_eq in E; subst u0. right.
       eapply removed_alt; eauto; cbn; auto. rewrite Hlk, N.eqb_refl. reflexivity.
     - destruct (cancel_entry_done _ _ _ _ _ H0) as (Hlk & _ & _).
-      rewrite lookup_remove. destruct (u0 =? u) eqn:E; [|left; exists x; exact Hx].
+      rewrite lookup_remove. destruct (u0 =? u) eqn:E; [|left; left; exists x; exact Hx].
       apply N.eqb_eq in E; subst u0. right.
       eapply removed_alt; eauto; cbn; auto. rewrite Hlk, N.eqb_refl. reflexivity.
     - (* delivery *)
-      rewrite lookup_remove. destruct (u0 =? u) eqn:E; [|left; exists x; exact Hx].
+      rewrite lookup_remove. destruct (u0 =? u) eqn:E; [|left; left; exists x; exact Hx].
       apply N.eqb_eq in E; subst u0. right. left.
       destruct (i_cb _ HI u) as ((a & b & c & e & Hs' & Hle) & _); [now rewrite H|].
       destruct (send_unique _ _ _ _ _ _ _ _ _ _ (sent_nodup _ HI) Hin Hs') as (_ & _ & -> & ->). exact Hle.
   Qed.
 
-  Lemma L_old s s' : step_rel v pick s s' -> Inv1 s -> InvCan s ->
+  Lemma L_old s s' : step_rel v pick s s' -> Inv1 s -> InvCan v s ->
     forall l1 sid tc l2, trace s = l1 ++ ECancelDone sid tc :: l2 ->
       forall u tgt enq d, In (ESend u sid tgt enq d) l2 -> tc < enq + d -> dead s' u.
   Proof.
     intros Hs HI HC l1 sid tc l2 Heq u tgt enq d Hin Hlt.
     eapply dead_step; eauto.
     - eapply sent_in. rewrite Heq. apply in_or_app. right. right. exact Hin.
-    - eapply c_L; eauto.
+    - eapply (c_L v); eauto.
   Qed.
 
   Ltac old_decomp Heq :=
     let l := fresh "lx" in let He := fresh "He" in
     apply cons_decomp in Heq as [(_ & He & _)|(l & _ & Heq)]; [discriminate|].
 
-  Lemma InvCan_step s s' : step_rel v pick s s' -> Inv1 s -> InvCan s -> InvCan s'.
+  Lemma InvCan_step s s' : step_rel v pick s s' -> Inv1 s -> InvCan v s -> InvCan v s'.
   Proof.
     intros Hs HI HC.
     pose proof (K_old _ _ Hs HI HC) as HK.
@@ -1132,7 +1182,7 @@ Section PreserveCan2.
     assert (HM : forall sid l, cancel_todo (ipc s) = Some (sid, l) ->
               forall u tgt enq d, In (ESend u sid tgt enq d) (trace s) ->
                 In u l \/ enq + d <= now s' \/ dead s' u).
-    { intros sid l Hc u tgt enq d Hin. destruct (c_M _ HC _ _ Hc _ _ _ _ Hin) as [H|[H|H]]; auto.
+    { intros sid l Hc u tgt enq d Hin. destruct (c_M _ _ HC _ _ Hc _ _ _ _ Hin) as [H|[H|H]]; auto.
       - right; left; lia.
       - right; right. eapply dead_step; eauto. eapply sent_in; eauto. }
     destruct Hs.
@@ -1145,9 +1195,13 @@ Section PreserveCan2.
     - (* send *)
       constructor; cbn in *.
       + intros u0 sid0 tgt0 enq d0 [Heq|Hin]; [|eapply HK; eauto].
-        inversion Heq; subst. left. rewrite lookup_put, N.eqb_refl. eauto.
+        inversion Heq; subst. left. unfold has_target. cbn. destruct (dv_enqueue_arms_first v) eqn:Haf.
+        * right. split; [reflexivity | now exists tgt0].
+        * left. rewrite lookup_put, N.eqb_refl. eauto.
       + discriminate.
       + intros l1 sid0 tc l2 Heq. old_decomp Heq. eapply HL; eauto.
+    - constructor; cbn in *; [apply HK | discriminate | apply HL].
+    - constructor; cbn in *; [apply HK | discriminate | apply HL].
     - (* fault *)
       constructor; cbn in *; [apply HK | apply HM | apply HL].
     - (* cancel with nothing to do *)
@@ -1157,14 +1211,16 @@ Section PreserveCan2.
       + intros l1 sid0 tc l2 Heq u0 tgt0 enq d Hin Hlt.
         apply cons_decomp in Heq as [(_ & He & <-)|(l1' & _ & Heq)]; [|eapply HL; eauto].
         inversion He; subst sid0 tc.
-        destruct (HK _ _ _ _ _ Hin) as [[[sid1 tgt1] Hx]|[Hle|Hdead]]; [|lia|exact Hdead].
+        destruct (HK _ _ _ _ _ Hin) as [[[[sid1 tgt1] Hx]|[_ [tg Hip]]]|[Hle|Hdead]];
+          [cbn in Hx|cbn in Hip; discriminate|lia|exact Hdead].
         exfalso. destruct (i_tgt _ HI _ _ _ Hx) as (c & e & Hs').
         destruct (send_unique _ _ _ _ _ _ _ _ _ _ (sent_nodup _ HI) Hin Hs') as (-> & _).
         apply sid_keys_in in Hx. rewrite H2 in Hx. exact Hx.
     - (* cancel starts *)
       constructor; cbn in *; [apply HK | | apply HL].
       intros sid0 l [= <- <-] u0 tgt0 enq d Hin.
-      destruct (HK _ _ _ _ _ Hin) as [[[sid1 tgt1] Hx]|[Hle|Hdead]]; auto.
+      destruct (HK _ _ _ _ _ Hin) as [[[[sid1 tgt1] Hx]|[_ [tg Hip]]]|[Hle|Hdead]];
+        [cbn in Hx|cbn in Hip; discriminate|now (right; left)|now (right; right)].
       left. destruct (i_tgt _ HI _ _ _ Hx) as (c & e & Hs').
       destruct (send_unique _ _ _ _ _ _ _ _ _ _ (sent_nodup _ HI) Hin Hs') as (-> & _).
       apply sid_keys_in in Hx. now rewrite H2 in Hx.
@@ -1249,7 +1305,7 @@ Section AllSchedules.
   Variable pick : list (N * N) -> N -> option N.
   Hypothesis Hpick : pick_sound pick.
 
-  Definition Inv (s : dstate) : Prop := Inv1 s /\ InvOrd s /\ InvCan s.
+  Definition Inv (s : dstate) : Prop := Inv1 s /\ InvOrd s /\ InvCan v s.
 
   Lemma Inv_init p : wf_prog p = true -> Inv (init p).
   Proof.
@@ -1332,7 +1388,7 @@ Section AllSchedules.
     ~ In u (delivered (trace (run v pick (init p) sched))).
   Proof.
     intros H Heq Hin Hlt. destruct (Inv_reach p sched H) as (_ & _ & HC).
-    destruct (c_L _ HC _ _ _ _ Heq _ _ _ _ Hin Hlt) as (_ & _ & Hd). exact Hd.
+    destruct (c_L _ _ HC _ _ _ _ Heq _ _ _ _ Hin Hlt) as (_ & _ & Hd). exact Hd.
   Qed.
   (* ... and at every later moment -- in particular when the cancel returns (l1 = []) -- EVERY event sent
      under that sendid and not yet due is gone from _callbackData, is not in a running callback and
@@ -1346,7 +1402,7 @@ Section AllSchedules.
       lookup (pending s) u = None /\ tpc_on (tpc s) <> Some u /\ ~ In u (delivered (trace s)).
   Proof.
     intros H s Heq u tgt enq d Hin Hlt. destruct (Inv_reach p sched H) as (_ & _ & HC).
-    exact (c_L _ HC _ _ _ _ Heq _ _ _ _ Hin Hlt).
+    exact (c_L _ _ HC _ _ _ _ Heq _ _ _ _ Hin Hlt).
   Qed.
 End AllSchedules.
 
